@@ -51,6 +51,16 @@ def run_case(prop, case, res):
     from architecture_simulator.uarch.memory.memory import MemoryAddressError
 
     toy = case["kind"] == "toy"
+    neighbours = []
+    if case.get("neighbours"):
+        # memories of the OTHER kind (and of another size) live in the same process, built before and after the
+        # memory under test: every memory is its own store with its own cell width and range
+        from architecture_simulator.uarch.toy.toy_architectural_state import ToyArchitecturalState as _T
+        from architecture_simulator.uarch.riscv.riscv_architectural_state import RiscvArchitecturalState as _R
+
+        neighbours.append(_T(unified_memory_size=case["neighbours"]).memory if not toy else _R().memory)
+        neighbours.append(_T(unified_memory_size=case["neighbours"]).memory)
+        res.count("histories_with_neighbour_memories")
     if toy:
         from architecture_simulator.uarch.toy.toy_architectural_state import ToyArchitecturalState
 
@@ -67,6 +77,13 @@ def run_case(prop, case, res):
         cells = lambda w: w
         RD = {1: m.read_byte, 2: m.read_halfword, 4: m.read_word, 8: m.read_doubleword}
         WR = {1: (m.write_byte, fixedint.UInt8), 2: (m.write_halfword, fixedint.UInt16), 4: (m.write_word, fixedint.UInt32), 8: (m.write_doubleword, fixedint.UInt64)}
+    if case.get("neighbours"):
+        from architecture_simulator.uarch.toy.toy_architectural_state import ToyArchitecturalState as _T
+        from architecture_simulator.uarch.riscv.riscv_architectural_state import RiscvArchitecturalState as _R
+
+        neighbours.append(_R().memory if toy else _T().memory)
+        # the neighbours are used too (their own contents must never show up in the memory under test)
+        neighbours[-1].write_halfword(5 if not toy else 0x4006, fixedint.UInt16(0xA5A5))
     touched = set()
     flags = set()
     written = set()
@@ -170,6 +187,8 @@ def run_shard(spec, res):
         return
     for it in range(spec["n"]):
         case = gen_rv(rng, rng.randint(60, 150)) if spec["kind"] == "rv" else gen_toy(rng, rng.randint(40, 120))
+        if rng.random() < 0.3:
+            case["neighbours"] = rng.choice([16, 100, 5000])
         guarded(run_case, "C18", case, res)
         res.evaluations += 1
         if it < 1:
